@@ -1515,6 +1515,10 @@ class Exec:
             mod = '::'.join(re.sub(r"^&(?:'\w+ )?(?:mut )?", '', self_ty).split('<')[0].split('::')[:-1])
             if mod:
                 out2 = [fs for fs in out if fs[0].name.split('<impl')[0].rstrip(':').endswith(mod)]
+                if not out2:
+                    # the impl may live in a sibling module (`impl Expr` for pst::expr::Expr in pst/ast_conversions.rs): same top-level module directory
+                    top = mod.split('::')[0]
+                    out2 = [fs for fs in out if f'/src/{top}/' in (fs[0].file or '') or (fs[0].file or '').endswith(f'/src/{top}.rs')]
                 out = out2 or out
         if len(out) > 1:
             # prefer the impl without generic wildcards (a concrete impl beats a blanket one)
